@@ -117,7 +117,7 @@ ENGINES = {
     "alloc": {"path": "harness/alloc_catalog.cpp", "serves": ["C11"], "kind": "allocation-interposed statement catalog (-O2, no sanitizers)"},
     "crashkid": {"path": "harness/crashkid.cpp", "serves": ["C07"], "kind": "fork/exec fault injection: generated child programs, all boundaries x termination kinds"},
     "tsfmt": {"path": "harness/tsfmt.cpp", "serves": ["C13"], "kind": "TimestampFormatter vs libc strftime"},
-    "tscorder": {"path": "harness/tsc_order.cpp", "serves": ["C05"], "kind": "TSC-clock (default clock source) ordering harness: harness thread = backend, real worker threads logging one operation at a time, real time relative to the grace period; measured precondition"},
+    "tscorder": {"path": "harness/tsc_order.cpp", "serves": ["C05", "C06"], "kind": "TSC-clock (default clock source) ordering harness: harness thread = backend, real worker threads logging one operation at a time, real time relative to the grace period; measured precondition"},
     "check": {"path": "check", "serves": ["C%02d" % i for i in range(1, 21)],
               "kind": "python3 driver: builds harnesses from /repo's working tree, seeds, tiers, replays, known findings, evidence"},
 }
@@ -198,7 +198,11 @@ PROPERTIES = {
         "rule": SIM_CASE + ("non-trivial = >= 2 threads logged AND a flush was issued while statements of OTHER threads whose calls had "
                             "completed were required to be written by it"),
         "assumptions": ["flush_log is never called from the backend thread (documented)"],
-        "jobs": _simjobs("C06", ["sim_bb1k", "sim_ub", "sim_bd1k", "sim_ud"]) + [_rtjob("rt_bb4k", "C06"), _rtjob("rt_bd4k", "C06"), _rtjob("rt_ub_tsan", "C06", quick_cases=40)],
+        "jobs": _simjobs("C06", ["sim_bb1k", "sim_ub", "sim_bd1k", "sim_ud"]) + [_rtjob("rt_bb4k", "C06"), _rtjob("rt_bd4k", "C06"), _rtjob("rt_ub_tsan", "C06", quick_cases=40),
+                 # flush_log() on the default (TSC) clock source, which sim cannot virtualise
+                 {"bin": "tscorder", "params": {"prop": "C06"}, "realthread": True,
+                  "quick": {"cases": 60, "procs": 4, "maxlen": 200},
+                  "thorough": {"cases": 1500, "procs": 8, "maxlen": 200}}],
     },
     "C08": {
         "technique": "stateful property-based testing on dropping queue flavours: return value <=> delivery, reported drops == false returns, control requests never dropped",
